@@ -187,6 +187,9 @@ func queryHost(ch *core.Chooser, hosts []string) string {
 		return "_dmarc." + h
 	case 12:
 		return []string{"localhost", "", h + ":8080"}[ch.Intn("q.oddhost", 3)]
+	case 13:
+		// not ASCII
+		return []string{"b\u00fccher.example.org", "\u043f\u0440\u0438\u043c\u0435\u0440.\u0440\u0444", "caf\u00e9." + h, "B\u00dcCHER.example.org"}[ch.Intn("q.idnhost", 4)]
 	}
 	return h
 }
